@@ -773,7 +773,7 @@ def sameDir (p q : V3 Int) : Bool :=
 
 def fnI : Fn Int :=
   { sqrt := id, asin := id, abs := fun x => if x < 0 then -x else x, close := eqI,
-    tol := 0, eps := 0, normalize := id, samePt := sameDir }
+    tol := 0, eps := 0, normalize := id, samePt := sameDir, nearPt := sameDir }
 
 def faceI (l : List (V3 Int)) : List (Edge Int) :=
   (Oracle.cyc l).map fun e => ⟨e.1, e.2, 0, 0, 0, 0⟩
@@ -1406,7 +1406,7 @@ theorem extreme_sin_encloses_min (a b : V3 ℝ) (ha : dot a a = 1) (hb : dot b b
     tolerance snapping -/
 noncomputable def realFn (f : ℝ → ℝ) : Fn ℝ :=
   { sqrt := Real.sqrt, asin := f, abs := fun x => |x|, close := fun _ _ => false, tol := 0, eps := 0,
-    normalize := id, samePt := fun _ _ => false }
+    normalize := id, samePt := fun _ _ => false, nearPt := fun _ _ => false }
 
 theorem z_sq_le_normSq (p : V3 ℝ) : p.z ^ 2 ≤ dot p p := by
   obtain ⟨x, y, z⟩ := p
